@@ -162,6 +162,56 @@ fn norm_seq(evs: &[serde_json::Value]) -> Vec<String> {
     v
 }
 
+/// Watchdog: when the crate hangs (no event for `secs` seconds) the partial trace of the current run is appended to
+/// the trace file together with a `hang` event, and the process exits with status 3.
+pub fn start_watchdog(trace_path: String, secs: u64) {
+    std::thread::spawn(move || {
+        let mut last = world::HEARTBEAT.load(std::sync::atomic::Ordering::Relaxed);
+        let mut idle = 0u64;
+        loop {
+            std::thread::sleep(std::time::Duration::from_secs(1));
+            let now = world::HEARTBEAT.load(std::sync::atomic::Ordering::Relaxed);
+            if now != last {
+                last = now;
+                idle = 0;
+                continue;
+            }
+            idle += 1;
+            if idle < secs {
+                continue;
+            }
+            let log = world::take_log();
+            if log.is_empty() {
+                // nothing in progress (e.g. the main thread is writing files)
+                idle = 0;
+                continue;
+            }
+            let mut wh = "other";
+            for l in log.iter().rev() {
+                if l.starts_with(r#"{"e":"ret""#) || l.starts_with(r#"{"e":"dropc_e""#) {
+                    break;
+                }
+                if l.starts_with(r#"{"e":"poll""#) {
+                    wh = "poll";
+                    break;
+                }
+                if l.starts_with(r#"{"e":"dropc_b""#) {
+                    wh = "drop";
+                    break;
+                }
+            }
+            if let Ok(mut f) = std::fs::OpenOptions::new().append(true).create(true).open(&trace_path) {
+                for l in &log {
+                    let _ = writeln!(f, "{}", l);
+                }
+                let _ = writeln!(f, "{{\"e\":\"hang\",\"where\":\"{}\"}}", wh);
+            }
+            println!("{{\"runs\":0,\"hung\":true,\"where\":\"{}\"}}", wh);
+            std::process::exit(3);
+        }
+    });
+}
+
 fn write_lines(path: &str, lines: &[String]) {
     let mut f = std::io::BufWriter::new(std::fs::File::create(path).expect("create"));
     for l in lines {
@@ -190,6 +240,7 @@ fn main() {
             let mut scn_out = arg(&args, "--scn-out").map(|p| std::io::BufWriter::new(std::fs::File::create(p).unwrap()));
             let mut drift_out = arg(&args, "--drift").map(|p| std::io::BufWriter::new(std::fs::File::create(p).unwrap()));
             let mut out = std::io::BufWriter::new(std::fs::File::create(&args[3]).expect("create trace"));
+            start_watchdog(args[3].clone(), 20);
             let mut run = 0u64;
             let mut drifts = 0u64;
             let mut compared = 0u64;
@@ -209,6 +260,12 @@ fn main() {
                     run += 1;
                     let mut sc = pred_to_scenario(&pred, &format!("gen:{}:{}", ln + 1, tail));
                     sc.tail = tail.clone();
+                    if let Some(s) = scn_out.as_mut() {
+                        let mut sc2 = sc.clone();
+                        sc2.pred.clear();
+                        writeln!(s, "{}", serde_json::to_string(&sc2).unwrap()).unwrap();
+                        s.flush().unwrap();
+                    }
                     run_scenario(&sc, run, hooklog);
                     let log = world::take_log();
                     if ti == 0 {
@@ -240,14 +297,10 @@ fn main() {
                             }
                         }
                     }
-                    if let Some(s) = scn_out.as_mut() {
-                        let mut sc2 = sc.clone();
-                        sc2.pred.clear();
-                        writeln!(s, "{}", serde_json::to_string(&sc2).unwrap()).unwrap();
-                    }
                     for l in log {
                         writeln!(out, "{}", l).unwrap();
                     }
+                    out.flush().unwrap();
                 }
             }
             println!("{{\"runs\":{},\"compared\":{},\"drift\":{}}}", run, compared, drifts);
@@ -329,21 +382,24 @@ fn main() {
             let size = arg(&args, "--size").unwrap_or("small").to_string();
             let profile = arg(&args, "--profile").unwrap_or("mix").to_string();
             let mut out = std::io::BufWriter::new(std::fs::File::create(arg(&args, "--out").expect("--out")).unwrap());
+            start_watchdog(arg(&args, "--out").unwrap().to_string(), 20);
             let mut scn_out =
                 arg(&args, "--scn-out").map(|p| std::io::BufWriter::new(std::fs::File::create(p).unwrap()));
             let mut rng = randgen::Rng::new(seed ^ 0x5DEECE66D);
             let mut events = 0u64;
             for run in 1..=n {
                 let mut sc = randgen::gen(&mut rng, &kind, &size, &profile);
-                sc.id = format!("rnd:{}:{}:{}:{}", kind, size, seed, run);
-                run_scenario(&sc, run, hooklog);
+                sc.id = format!("rnd:{}:{}:{}:{}:{}", kind, size, profile, seed, run);
                 if let Some(s) = scn_out.as_mut() {
                     writeln!(s, "{}", serde_json::to_string(&sc).unwrap()).unwrap();
+                    s.flush().unwrap();
                 }
+                run_scenario(&sc, run, hooklog);
                 for l in world::take_log() {
                     events += 1;
                     writeln!(out, "{}", l).unwrap();
                 }
+                out.flush().unwrap();
             }
             println!("{{\"runs\":{},\"events\":{}}}", n, events);
         }
